@@ -28,8 +28,11 @@ func (e *Exec) unop(th *Thread, in *ssa.UnOp, x Value) Value {
 		return c.Not(x.(*Term))
 	case token.SUB:
 		t := x.(*Term)
+		if t.sort.K == SReal {
+			return c.RBin("-", c.RConst(new(big.Rat)), t) // negation is exact
+		}
 		if t.sort.K == SFP {
-			return c.FPBin("fp.sub", c.FPConst(0), t)
+			return e.fpBin("fp.sub", e.fpConst(0), t)
 		}
 		return c.Neg(t)
 	case token.XOR:
@@ -92,24 +95,24 @@ func (e *Exec) binop(op token.Token, xt types.Type, x, y Value, rt types.Type) V
 	if !ok1 || !ok2 {
 		panic(pathAbort{"error", fmt.Sprintf("binop %s on %T, %T", op, x, y)})
 	}
-	if a.sort.K == SFP {
+	if a.sort.K == SFP || a.sort.K == SReal {
 		switch op {
 		case token.ADD:
-			return c.FPBin("fp.add", a, b)
+			return e.fpBin("fp.add", a, b)
 		case token.SUB:
-			return c.FPBin("fp.sub", a, b)
+			return e.fpBin("fp.sub", a, b)
 		case token.MUL:
-			return c.FPBin("fp.mul", a, b)
+			return e.fpBin("fp.mul", a, b)
 		case token.QUO:
-			return c.FPBin("fp.div", a, b)
+			return e.fpBin("fp.div", a, b)
 		case token.LSS:
-			return c.FPCmp("fp.lt", a, b)
+			return e.fpCmp("fp.lt", a, b)
 		case token.LEQ:
-			return c.FPCmp("fp.leq", a, b)
+			return e.fpCmp("fp.leq", a, b)
 		case token.GTR:
-			return c.FPCmp("fp.gt", a, b)
+			return e.fpCmp("fp.gt", a, b)
 		case token.GEQ:
-			return c.FPCmp("fp.geq", a, b)
+			return e.fpCmp("fp.geq", a, b)
 		}
 		panic(pathAbort{"error", "unsupported float binop " + op.String()})
 	}
@@ -321,7 +324,7 @@ func (e *Exec) conv(dst, src types.Type, x Value) Value {
 					return c.ZExt(t, dw)
 				}
 				if ud.Info()&types.IsFloat != 0 {
-					return c.FPFromBV(t, ssigned)
+					return e.fpFromInt(t, ssigned)
 				}
 				if ud.Info()&types.IsString != 0 {
 					if t.IsConst() {
@@ -339,7 +342,7 @@ func (e *Exec) conv(dst, src types.Type, x Value) Value {
 				}
 				if ud.Info()&types.IsInteger != 0 {
 					dw, dsigned, _ := intWidth(ud)
-					return c.FPToBV(t, dw, dsigned)
+					return e.fpToInt(t, dw, dsigned)
 				}
 			}
 		}
@@ -751,8 +754,8 @@ func (e *Exec) callBuiltin(th *Thread, b *ssa.Builtin, args []Value) Value {
 		for _, a := range args[1:] {
 			t := a.(*Term)
 			var lt *Term
-			if r.sort.K == SFP {
-				lt = c.FPCmp("fp.lt", t, r)
+			if r.sort.K == SFP || r.sort.K == SReal {
+				lt = e.fpCmp("fp.lt", t, r)
 			} else if r.sort.K == SInt {
 				lt = c.intCmp("lt", t, r)
 			} else {
